@@ -582,7 +582,8 @@ impl<'a> Gen<'a> {
                 50..=59 => ip4(10, 1, 0, self.rng.range(2, 6) as u8),
                 60..=79 => self.rng.pick(&[ip4(10, 9, 0, 5), ip4(172, 16, 0, 9), ip4(8, 8, 8, 8), ip4(10, 0, 1, 7)]).clone(),
                 80..=84 => self.rng.pick(&[ip4(10, 0, 0, 254), ip4(10, 0, 0, 253)]).clone(),
-                85..=87 => ip4(255, 255, 255, 255),
+                85 => ip4(0, 0, 0, 0),
+                86..=87 => ip4(255, 255, 255, 255),
                 88..=90 => self.rng.pick(&[ip4(10, 0, 0, 255), ip4(10, 0, 0, 3), ip4(10, 1, 255, 255)]).clone(),
                 91..=94 => self.rng.pick(&[ip4(224, 0, 0, 251), ip4(224, 0, 0, 1), ip4(239, 129, 2, 3)]).clone(),
                 _ => ip4(10, 0, 0, 1),
@@ -597,7 +598,8 @@ impl<'a> Gen<'a> {
                 50..=59 => ip6(GU, self.rng.range(2, 6) as u64),
                 60..=79 => self.rng.pick(&[ip6(GU + 0xffff, 5), ip6(0x2600_0000_0000_0000, 1), ip6(LL + 1, 7)]).clone(),
                 80..=84 => self.rng.pick(&[ip6(LL, 0xfe), ip6(GU, 0xfe)]).clone(),
-                85..=92 => self.rng.pick(&[ip6(0xff02_0000_0000_0000, 1), ip6(0xff02_0000_0000_0000, 0xfb), ip6(0xff05_0000_0000_0000, 0x1_0003)]).clone(),
+                85 => ip6(0, 0),
+                86..=92 => self.rng.pick(&[ip6(0xff02_0000_0000_0000, 1), ip6(0xff02_0000_0000_0000, 0xfb), ip6(0xff05_0000_0000_0000, 0x1_0003)]).clone(),
                 _ => ip6(LL, 1),
             }
         }
@@ -619,7 +621,7 @@ impl<'a> Gen<'a> {
         self.now += d;
     }
     fn edst(&mut self) -> String {
-        match self.rng.below(12) {
+        match self.rng.below(9) {
             0 => "ffffffffffff".into(),
             1 => "20000000099".into(),   // somebody else's unicast address
             2 => "3333ff000001".into(),
@@ -787,10 +789,15 @@ fn gen_case(rng: &mut Rng, id: String, tier: &str) -> Case {
     for _ in 0..len {
         match g.rng.below(100) {
             0..=31 => {
-                let d = g.dst(&plan);
+                let mut d = g.dst(&plan);
                 g.tag += 1;
                 let extra = if g.rng.chance(1, 30) { 1 } else { 0 };
                 let s = g.rng.below(g.nsock as u64 + extra);
+                // a raw socket drops a packet with the unspecified destination silently and offers no
+                // queue-length observable to notice it: not generated (udp/icmp refuse it at send)
+                if socks.as_bytes().get(s as usize) == Some(&b'r') && (d == "4.0" || d == "6.0") {
+                    d = if d == "4.0" { ip4(10, 0, 0, 2) } else { ip6(LL, 2) };
+                }
                 ops.push(format!("send {} {} {}", s, d, g.tag));
             }
             32..=61 => {
@@ -990,6 +997,12 @@ impl Oracle {
             if edst != OWN_HW && hw_unicast(edst) {
                 continue;
             }
+            if !hw_unicast(edst) && t[0] != "arp" {
+                let dst = parse_ip(t[4]);
+                if !is_mcast(&dst) && !self.is_bcast(&dst) {
+                    continue;
+                }
+            }
             match t[0] {
                 "arp" => {
                     let (op, sha, spa, tpa) = (t[2], parse_hw(t[3]), parse_ip(t[4]), parse_ip(t[5]));
@@ -1016,14 +1029,15 @@ impl Oracle {
                     if is_mcast(&src) || is_zero(&src) {
                         continue;
                     }
-                    // destination filter of the interface: one of our addresses, all-nodes, loopback, or
-                    // anything sharing the last 16 bits with one of our IPv6 addresses (the interface's
-                    // solicited-node test is that wide; whether it should be is property C11's business)
-                    let low16 = bits_of(&dst).0 & 0xffff;
+                    // destination filter of the interface: one of our addresses, all-nodes, or the
+                    // solicited-node group of one of our addresses
+                    let d = bits_of(&dst).0;
                     let accepted = self.is_ours(&dst)
-                        || bits_of(&dst).0 == 1
-                        || bits_of(&dst).0 == (0xff02u128 << 112) | 1
-                        || self.addrs.iter().any(|c| matches!(c, IpCidr::Ipv6(_)) && bits_of(&c.address()).0 != 1 && bits_of(&c.address()).0 & 0xffff == low16);
+                        || d == (0xff02u128 << 112) | 1
+                        || (d >> 24 == ((0xff02u128 << 112) | (0x1ffu128 << 24)) >> 24
+                            && self.addrs.iter().any(|c| {
+                                matches!(c, IpCidr::Ipv6(_)) && bits_of(&c.address()).0 != 1 && bits_of(&c.address()).0 & 0xff_ffff == d & 0xff_ffff
+                            }));
                     if !accepted {
                         continue;
                     }
@@ -1309,7 +1323,7 @@ fn oracle_case(c: &Case, fails: &mut Vec<String>, stats: &mut BTreeMap<String, u
     let accepted = o.accepted.len() as i64;
     *stats.entry("packets_accepted".into()).or_default() += accepted as u64;
     *stats.entry("packets_transmitted".into()).or_default() += sent as u64;
-    *stats.entry("packets_still_queued".into()).or_default() += queued as u64;
+    *stats.entry("packets_still_queued".into()).or_default() += queued.max(0) as u64;
     if std::env::var("C16_DEBUG").is_ok() && queued > 0 {
         eprintln!("STILLQUEUED {} {:?}", c.id, lens);
     }
@@ -1317,8 +1331,11 @@ fn oracle_case(c: &Case, fails: &mut Vec<String>, stats: &mut BTreeMap<String, u
         // the only legitimate silent drop: an IPv4 packet while the interface had no IPv4 address
         let missing: Vec<i64> = o.accepted.keys().filter(|t| !o.on_wire.contains_key(t)).cloned().collect();
         let v4_missing = missing.iter().filter(|t| matches!(o.accepted[t].1, IpAddress::Ipv4(_))).count() as i64;
-        if o.v4_gap && accepted - sent - queued <= v4_missing {
-            *stats.entry("dropped_no_ipv4_source".into()).or_default() += (accepted - sent - queued) as u64;
+        // ... and a raw packet whose own header carries the unspecified destination
+        let unspec_missing = missing.iter().filter(|t| is_zero(&o.accepted[t].1)).count() as i64;
+        let lost = accepted - sent - queued;
+        if lost <= unspec_missing + if o.v4_gap { v4_missing } else { 0 } {
+            *stats.entry("dropped_by_socket_no_source_or_unspecified".into()).or_default() += lost as u64;
         } else {
             fails.push(format!(
                 "socket-data-lost :: case {}: accepted {} transmitted {} still queued {} (untransmitted tags {:?})",
@@ -1357,7 +1374,9 @@ fn run_oracle(cases: &[Case], out: &mut dyn Write, emit_cases: bool) {
 }
 
 fn main() {
-    quiet_panics();
+    if std::env::var("C16_DEBUG").is_err() {
+        quiet_panics();
+    }
     let (sub, seed, n, tier) = args();
     let stdout = std::io::stdout();
     let mut out = std::io::BufWriter::new(stdout.lock());
